@@ -194,6 +194,7 @@ def step (s : Unit) (toks : List String) : Unit × String :=
   | "obs" :: _ => (s, stepMon toks)
   | "skip" :: _ => (s, "skip")
   | "panic" :: _ => (s, "panic")
+  | "timeout" :: _ => (s, "timeout")
   | _ => (s, stepCmp toks)
 
 end IstioModel.C17
